@@ -56,7 +56,14 @@ def make_actions(spec, state):
         def act(context, nodes):
             if state.get("boom") == name:
                 raise Boom()
-            return [name, nodes]
+            # per-parse state kept where the documentation says to keep it: `extra` is a fresh dict
+            # for every parse() that is not given one
+            ex = getattr(context, "extra", None)
+            n = None
+            if isinstance(ex, dict):
+                n = ex.get("count", 0)
+                ex["count"] = n + 1
+            return [name, nodes, n]
         return act
     return {n: mk(n) for n in spec.nonterminals()}
 
@@ -190,14 +197,41 @@ def run_unit(u):
                     res["violations"].append({"kind": "used-parser-differs-from-fresh-parser",
                                               "case": dict(case, input=text), "observed": list(a), "expected": list(b)})
                     break
-            # a later build on the used grammar gives the same table as on a fresh grammar
+            # FIRST/FOLLOW as a later construction would see them on the used grammar equal those of a
+            # grammar object nothing has been built from
             try:
-                p2 = build(kind, g, tables, make_actions(spec0, state))
-                f2 = build(kind, Grammar.from_string(gtxt), tables, make_actions(spec0, {}))
-                if table_sig(num, p2) != table_sig(Numbering(f2.grammar), f2):
-                    res["violations"].append({"kind": "table-built-after-history-differs-from-fresh-table", "case": case})
-            except (SRConflicts, RRConflicts):
+                from parglare.tables import first as first_of, follow as follow_of
+
+                def setsig(gr):
+                    f = first_of(gr)
+                    fo = follow_of(gr, f)
+                    return (sorted((k.name, sorted(x.name for x in v)) for k, v in f.items()),
+                            sorted((k.name, sorted(x.name for x in v)) for k, v in fo.items()))
+                a, b = setsig(g), setsig(Grammar.from_string(gtxt))
+                res["evaluations"] += 1
+                if a != b:
+                    diff = [(x, y) for x, y in zip(a[0] + a[1], b[0] + b[1]) if x != y][:3]
+                    res["violations"].append({"kind": "first-follow-sets-of-used-grammar-differ-from-fresh-grammar",
+                                              "case": case, "observed": str([d[0] for d in diff])[:300],
+                                              "expected": str([d[1] for d in diff])[:300]})
+            except ImportError:
                 pass
+            # a later build on the used grammar -- either table kind, either parser kind -- gives the same
+            # table, or the same failure, as on a fresh grammar
+            for kind2, tables2 in ((kind, tables), ("LR", parglare.SLR), ("LR", parglare.LALR), ("GLR", parglare.SLR)):
+                def sig(gr):
+                    try:
+                        pp = build(kind2, gr, tables2, make_actions(spec0, {}))
+                        return table_sig(Numbering(pp.grammar), pp)
+                    except (SRConflicts, RRConflicts) as e:
+                        return type(e).__name__
+                a, b = sig(g), sig(Grammar.from_string(gtxt))
+                res["evaluations"] += 1
+                if a != b:
+                    res["violations"].append({"kind": "table-built-after-history-differs-from-fresh-table",
+                                              "case": dict(case, later_build=[kind2, "LALR" if tables2 == parglare.LALR else "SLR"]),
+                                              "observed": a if isinstance(a, str) else "table", "expected": b if isinstance(b, str) else "table"})
+                    break
             if interesting:
                 res["nontrivial"].append(h16(case))
             if len(res["samples"]) < 2 and interesting:
